@@ -117,7 +117,8 @@ func Check(before *world.World, ev world.Event, pass *world.Pass, after *world.W
 		names = append(names, n)
 	}
 	sort.Strings(names)
-	matched := newest != nil && osw.TemplateOf(newest) == tmpl
+	// an archived newest ObjectSet does not realise the template (second sentence of the statement)
+	matched := newest != nil && osw.Lifecycle(newest) != "Archived" && osw.TemplateOf(newest) == tmpl
 	pre := !podPaused(od) && allReported && hasPhases(od)
 
 	var creates, clashes []*kmodel.Request
@@ -146,7 +147,7 @@ func Check(before *world.World, ev world.Event, pass *world.Pass, after *world.W
 		if got := previousNames(r.Post); strings.Join(got, ",") != strings.Join(names, ",") {
 			bad("previous-incomplete", "%s: previous=%v but the deployment's existing ObjectSets are %v", r, got, names)
 		}
-		if matched && collisionCount(od) == 0 {
+		if matched {
 			bad("create-although-matched", "%s creates a revision although the newest ObjectSet already matches the template", r)
 		}
 	}
